@@ -277,6 +277,44 @@ def check_literals(ctx):
                     ctx.violation("text:matrix", "the printed form %r parses back as %s" % (str(o), back), {"k": "literal", "text": str(o)})
 
 
+def check_layouts(ctx):
+    """beyond the listed clauses: the layer / connectivity builders (Layout.tla, LayoutTrace.tla)"""
+    from orquestra.quantum.circuits.layouts import build_circuit_layers_and_connectivity
+
+    res = ctx.tlc("Layout", constants=dict(MaxN=9), invariants=["ChainIsLayered"], action_constraints=["Emit"], workers=2, coverage=False, timeout=600)
+    for e in res.emitted:
+        ctx.count({"k": "layout-chain", "n": e["n"]}, kind="chain layouts (spec->code)")
+        conn, lay = build_circuit_layers_and_connectivity(e["n"])
+        if [list(x) for x in conn.connectivity] != [list(x) for x in e["conn"]] or [[list(x) for x in l_] for l_ in lay.layers] != [[list(x) for x in l_] for l_ in e["layers"]]:
+            ctx.violation("layout:chain", "nearest-neighbour layout of %d qubits: connectivity %s layers %s, specification %s / %s" % (e["n"], conn.connectivity, lay.layers, e["conn"], e["layers"]), {"k": "layout", "n": e["n"]})
+    lines, dims = [], []
+    for x in range(1, 6):
+        for y in range(2, 6):
+            try:
+                conn, lay = build_circuit_layers_and_connectivity(x, y, "sycamore")
+            except Exception as ex:
+                ctx.violation("layout:sycamore-raises", "sycamore layout %dx%d raised %s: %s" % (x, y, type(ex).__name__, str(ex)[:100]), {"k": "layout", "x": x, "y": y})
+                continue
+            lines.append({"kind": "sycamore", "qubits": x * y, "conn": [[int(a) for a in c_] for c_ in conn.connectivity], "layers": [[[int(a) for a in c_] for c_ in l_] for l_ in lay.layers]})
+            dims.append((x, y))
+    for nq in range(2, 10):
+        conn, lay = build_circuit_layers_and_connectivity(nq)
+        lines.append({"kind": "chain", "qubits": nq, "conn": [list(c_) for c_ in conn.connectivity], "layers": [[list(c_) for c_ in l_] for l_ in lay.layers]})
+        dims.append((nq, None))
+    path = os.path.join(ctx.tmp, "layouts.ndjson")
+    with open(path, "w") as f:
+        for ln in lines:
+            f.write(json.dumps(ln) + "\n")
+    tr = ctx.tlc("LayoutTrace", init="TInit", next_="TNext", constants=dict(MaxN=0), workers=1, env={"TRACE_FILE": path}, coverage=False, timeout=600)
+    if tr.distinct < len(lines):
+        raise TLCError("LayoutTrace consumed %d of %d lines" % (tr.distinct, len(lines)))
+    rej = [e for e in tr.emitted if "reject" in e]
+    for rj in rej:
+        d = dims[rj["reject"] - 1]
+        ctx.violation("layout:" + ",".join(sorted(rj["failed"])), "the layout built for dimensions %s is not a layering of its connectivity: %s fail" % (d, sorted(rj["failed"])), {"k": "layout", "dims": d})
+    ctx.traces_validated += len(lines) - len(rej)
+
+
 def run(ctx):
     res = ctx.tlc("Persist", constants=dict(AcceptBareI=True, OptionalFrameMeas=True, Emitting=True), invariants=INV, action_constraints=["Emit"], workers=4, coverage=False, timeout=1200)
     for consts, inv, what in ((dict(AcceptBareI=False, OptionalFrameMeas=True), "ReprParseDenotes", "a parser that rejects the bare I of a printed constant term"), (dict(AcceptBareI=True, OptionalFrameMeas=False), "LoadAfterSaveEqual", "a loader that requires the optional frame measurements")):
@@ -293,6 +331,7 @@ def run(ctx):
         for key, msg in fails:
             ctx.violation(key, msg, c)
     check_literals(ctx)
+    check_layouts(ctx)
     ctx.judged_numerically.append("the concrete decimal text Python prints for a float is outside TLA+: TLC works on coefficient classes, the harness maps them to four families of literals and adds a list of special literals (exponent format, negative zero, purely imaginary, bracketed complex)")
     ctx.assumptions.append("coefficients have magnitude below 1e15 (above, Python prints 'e+' and the sum splitter of the parser cuts the literal)")
 
@@ -300,6 +339,9 @@ def run(ctx):
 def replay(ctx, case):
     if case.get("k") == "literal":
         check_literals(ctx)
+        return
+    if case.get("k") == "layout":
+        check_layouts(ctx)
         return
     if case.get("k") == "tlc":
         raise TLCError("a TLC counterexample is replayed by re-running the check")
